@@ -90,7 +90,8 @@ def invalid_updates(rng, h):
         # P: a column with fewer stored entries than the stored upper triangle / a different leading pattern
         up = [(i, j) for j in range(n) for i in range(j + 1) if pr.maskP[i][j]]
         if up:
-            i0, j0 = rng.choice(up)
+            # prefer a column with room below the diagonal, so that the pattern-only mismatch ('P-pattern') exists for this history
+            i0, j0 = rng.choice([x for x in up if x[1] < n - 1] or up)
             m2 = [row[:] for row in pr.maskP]
             m2[i0][j0] = False
             # keep nnz of the column >= stored count by adding a below-diagonal entry when possible (pattern, not count, differs)
@@ -145,7 +146,13 @@ def make_cases(chk, rng):
                     rr = random.Random(seed + 2)
                     if family == "update":
                         kinds = invalid_updates(rr, h)
-                        kind, line = kinds[bad_kind_idx % len(kinds)]
+                        if isinstance(bad_kind_idx, str):
+                            named = [x for x in kinds if x[0] == bad_kind_idx]
+                            if not named:
+                                return (h, None), (h, None)
+                            kind, line = named[0]
+                        else:
+                            kind, line = kinds[bad_kind_idx % len(kinds)]
                         h.raw("sol.dump", "").raw(line, f"REJ:{kind}").raw("sol.dump", "")
                     elif family == "setup":
                         kinds = invalid_setups(rr, h)
@@ -185,7 +192,7 @@ def make_cases(chk, rng):
             out.append((h, kind))
         return out
 
-    fams = [("update", 30), ("setup", 7), ("settings", len(INVALID_SETTINGS))]
+    fams = [("update", 40), ("setup", 7), ("settings", len(INVALID_SETTINGS))]   # 40 >= the longest list of invalid update kinds (sparse, p, m > 0)
     for family, nk in fams:
         for kidx in range(nk):
             poss = range(1, 6) if thorough else [1 + (kidx % 5)]
@@ -202,6 +209,23 @@ def make_cases(chk, rng):
                     cases += [a, b]
                     pairs.append((a, b))
                     k += 1
+    # every sparse pattern-mismatch kind by name, on every sparse back end family member drawn at random: the index-based enumeration above
+    # reaches a kind only when the history happens to offer it (e.g. 'P-pattern' needs room below the diagonal of the chosen column)
+    for name in ["P-pattern", "P-colcount"] + [f"{nm}-pattern-{mode}" for nm in ("A", "G") for mode in ("move", "moverow", "movecol", "drop", "add")]:
+        got = 0
+        for attempt in range(12):
+            if got >= (4 if thorough else 2):
+                break
+            be = rng.choice([1, 2, 3, 4]); pk = rng.choice([0, 0, 1]); seed = rng.randrange(10 ** 9)
+            (h, kind), (t, _) = build(seed, be, pk, 1 + attempt % 5, name, "update")
+            if kind is None:
+                continue
+            h.name, t.name = f"j{k}", f"t{k}"
+            a, b = h.case(kind="inject", family="update", bad=kind, pos=1 + attempt % 5), t.case(kind="twin")
+            cases += [a, b]
+            pairs.append((a, b))
+            k += 1
+            got += 1
     # update / solve before setup
     for be in range(5):
         h = gen_sol.Hist(rng, f"p{be}", be, 0, gen_sol.rand_settings(rng), dims=(2, 1, 1))
